@@ -105,3 +105,17 @@ PROPS["C08"] = dict(
              "CBMC's IEEE-754 int->float conversion and float multiply (to_float_* harnesses); the to_f64_bits_* harnesses avoid the cast by building the expected bit pattern explicitly",
              "stub: Vec::shrink_to_fit -> no-op"],
 )
+
+PROPS["C09"] = dict(
+    inject=[("src/bigint/convert.rs", "c09/bytes.rs"), ("src/biguint/iter.rs", "c09/iter.rs")],
+    kani=[dict(filter_q="c09_q_", filter_t=["c09_q_", "c09_t_"], jobs=14, timeout_q=240, timeout_t=900)],
+    functions=["to_bytes_le/be", "from_bytes_le/be", "to_signed_bytes_le/be", "from_signed_bytes_le/be", "twos_complement", "BigUint::new/from_slice/assign_from_slice",
+               "BigInt::new/from_slice/assign_from_slice", "to_u32_digits/to_u64_digits", "U32Digits/U64Digits: next,next_back,len,size_hint,count,last,nth"],
+    bounds_quick="to_bytes: values of 0..2 digits; from_bytes/from_signed_bytes: every byte string of length {0,1,7,8,9,16,17} (0..17 thorough); to_signed_bytes: "
+                 "magnitudes of byte length {1,2,8,9} (+3,16 thorough), both signs, both byte orders, shortest-encoding assertion; u32 import: 0..5 words (0..7 thorough); "
+                 "iterators: any interleaving of up to 7 front/back pulls on values of 0..3 digits followed by one of count/last/nth; all contents symbolic",
+    outside="longer inputs/values",
+    trusted=["stub: Vec::with_capacity -> empty growing vector (hint unobservable; only where the caller fills by push) / capacity-64 variant where std's collect() is on the path",
+             "contract stub (to_signed_bytes harnesses only): BigUint::to_bytes_le/be -> NB arbitrary bytes with non-zero top byte (the real functions are decided by c09_*_to_bytes_*)",
+             "stub: Vec::shrink_to_fit -> no-op"],
+)
